@@ -49,6 +49,16 @@ def c09_classify(inp, out):
     return ks
 
 
+def c20_classify(inp, out):
+    ks = ["holder:" + out.split("|")[0].split(" ")[0], "verifier:" + out.split("|")[-1].split(" ")[0]]
+    r = inp.split("|")[1]
+    ks.append("req:" + ("none" if r == "R:-" else ("nested" if "[" in r else "flat")))
+    for k in ("count=", "min=", "max=", "pick", "all"):
+        if k in r:
+            ks.append("rule:" + k.rstrip("="))
+    return ks
+
+
 PROPS = {
     "C11": {
         "lean_files": ["AriesVerif/C11/Spec.lean", "AriesVerif/C11/Model.lean", "AriesVerif/C11/Props.lean",
@@ -116,5 +126,20 @@ PROPS = {
                          "and the table enumeration exports", "hand-written Execute tables (ppExec, icExec) of the model"],
         "assumptions": ["didexchange / connection / introduce are decided at table level only (their service loops are driven in C10)",
                         "messenger never fails; middleware is the default one"],
+    },
+    "C20": {
+        "lean_files": ["AriesVerif/C20/Model.lean", "AriesVerif/C20/Props.lean", "AriesVerif/C20/Drv.lean"],
+        "lake_targets": ["AriesVerif"],
+        "classify": c20_classify,
+        "nontrivial": lambda inp, out: out.startswith("vp "),
+        "thorough_seeds": 2,
+        "rule": "generated definitions (2-5 input descriptors in groups A-C with exists / const / pattern / minimum field constraints, "
+                "submission requirements none | all | pick with count / min / max, nested up to depth 2, several top-level requirements) x "
+                "generated credential sets (0-4 credentials incl. near misses: attribute present with the wrong value or type); real "
+                "CreateVP then Match on the marshalled presentation; non-trivial = a presentation was created; distinct (input, outcome) pairs",
+        "trusted_base": ["gval/jsonpath and gojsonschema (constraint evaluation is the predicate credMatches of the driver, for the "
+                         "generator's four filter kinds)", "unsigned JSON-LD credentials (proof check disabled on the verifier side)"],
+        "assumptions": ["v1-style definitions with a schema uri matched by every generated credential (the verifier validates schemas by default)",
+                        "limit_disclosure / subject_is_issuer / predicate filters not generated yet"],
     },
 }
